@@ -13,7 +13,13 @@ dest=$(grep -m1 -oE "copy to: *[^ ]+" $d/$demo | sed 's/copy to: *//')
 [ -z "$dest" ] && dest=pkg/protocol/
 cp $d/$demo $wt/$dest/zz_demo_${id}_${n}_test.go
 pkg=./$(echo $dest | sed 's:/$::')
-run_demo() { go test -vet=off -count=1 -timeout 300s -run 'Demo|C[0-9][0-9]' $pkg > $R/verify/$id-$n.demo.$1.log 2>&1; echo $?; }
+pat=$(python3 -c "
+import json,re
+m=json.load(open('$d/meta.json'))
+r=re.search(r'-run[ =]+[\x27\x22]?([^ \x27\x22]+)', m.get('demo_cmd',''))
+print(r.group(1) if r else 'Demo|C[0-9][0-9]')" 2>/dev/null)
+[ -z "$pat" ] && pat='Demo|C[0-9][0-9]'
+run_demo() { go test -vet=off -count=1 -timeout 300s -run "$pat" $pkg > $R/verify/$id-$n.demo.$1.log 2>&1; echo $?; }
 without=$(run_demo without)
 git apply $d/patch.diff || { echo "{\"id\":\"$id-$n\",\"applies\":false}" > $out; git checkout -q -- .; git clean -fdq; exit 1; }
 go build ./... > $R/verify/$id-$n.build.log 2>&1; build=$?
